@@ -102,7 +102,7 @@ Lemma eval_ext : forall o1 o2 c env pos,
   (forall i, pos <= i < pos + copq c -> o1 i = o2 i)%nat ->
   eval o1 c env pos = eval o2 c env pos /\ (pos <= snd (eval o1 c env pos) <= pos + copq c)%nat.
 Proof.
-  intros o1 o2. induction c as [y tg|y|y|y|k|a IHa|a IHa b IHb|a IHa b IHb]; intros env pos H; cbn [eval copq] in *;
+  intros o1 o2. induction c as [y tg|y|y|y|k|a IHa|a IHa b IHb|a IHa b IHb|y tg|y|y]; intros env pos H; cbn [eval copq] in *;
     try (split; [reflexivity | cbn; lia]).
   - split; [rewrite (H pos) by lia; reflexivity | cbn; lia].
   - destruct (IHa env pos H) as [E B]. rewrite <- E. destruct (eval o1 a env pos) as [v p]. cbn in *. split; [reflexivity | lia].
